@@ -88,8 +88,10 @@ def h_registry_step(S, B):
         already = any(v is target for k, v in reference)
         id_taken = False if oid is None else Or(*[eq(oid, k) for k, v in reference])
         id_of_other = False if oid is None else Or(*[eq(oid, k) for k, v in reference if v is not target and k != core.DAEMON_NAME])
-        S.known("C16-weakly-registered-object-can-be-registered-again-without-force", And(tname == "O1", st1 == "weak", not force))
-        S.known("C16-forced-replacement-leaves-the-pyro-marks-on-the-replaced-object", And(force, id_of_other))
+        S.known("C16-weakly-registered-object-can-be-registered-again-without-force", And(tname == "O1", st1 == "weak", not force),
+                checks=["duplicate-registration-is-refused-unless-forced"])
+        S.known("C16-forced-replacement-leaves-the-pyro-marks-on-the-replaced-object", And(force, id_of_other),
+                checks=["unregistered-object-travels-by-value"])
         if tname == "KC" and weak:
             S.check("weak-class-registration-refused", isinstance(exc, TypeError))
         elif not force:
@@ -146,7 +148,7 @@ def h_registry_step(S, B):
                 raise RuntimeError("harness: undecided id comparison")
         removed = [v for k, v in reference if (k, v) not in keep]
         reference = keep
-        S.known("C16-unregister-by-id-leaves-the-pyro-marks-on-the-object", len(removed) > 0)
+        S.known("C16-unregister-by-id-leaves-the-pyro-marks-on-the-object", len(removed) > 0, checks=["unregistered-object-travels-by-value"])
     elif op == "collect-O1":
         O1 = None
         pool["O1"] = None
